@@ -147,6 +147,11 @@ class Cmp(object):
                 if (a.flags, a.width, a.prec) != (b.flags, b.width, b.prec):
                     self.diff(where, "field format differs: found %s expect %s" % (a.spec(), b.spec()))
             if not self.val_eq(a.value, b.value):
+                if "unknown" in repr(getattr(a.value, "key", lambda: "")()) or type(a.value).__name__ == "Unknown":
+                    # the evaluator lost track of this value (a loop-carried variable it could not put in closed form):
+                    # it cannot be compared, which is the analysis' limit and not a difference of the program
+                    from .model import AnalysisError
+                    raise AnalysisError("a written value could not be put in closed form (%s at %s)" % (_short(a.value, 120), where))
                 self.diff(where, "field value differs:\n      found  %s\n      expect %s" % (_short(a.value, 500), _short(b.value, 500)))
             return
         if isinstance(a, SRep):
